@@ -134,10 +134,24 @@ static void h_op(void)
     NS->max_ram = 0;
     h_out("ok");
   }
+  else if (!strcmp(op, "maxram")) {            /* any threshold (MB); the switch then happens by itself when the size reaches it */
+    if (!NS) { h_out("bad-op"); return; }
+    NS->max_ram = (int) h_argi("m", 2048);
+    h_out("ok");
+  }
+  else if (!strcmp(op, "isext")) {             /* public field: has the index switched to the on-disk sort? */
+    if (!NS) { h_out("bad-op"); return; }
+    h_out("ok ext=%d", NS->external ? 1 : 0);
+  }
   else if (!strcmp(op, "write")) {
     unsigned char *b; size_t n; int present, tmp;
+    char *path = NULL;
     if (!NS) { h_out("bad-op"); return; }
+    if (h_argi("nosort", 0)) {                  /* make sort(1) unreachable: the external sort step fails (eslESYS) */
+      const char *p = getenv("PATH"); path = p ? strdup(p) : NULL; setenv("PATH", "/nonexistent-c06", 1);
+    }
     status = esl_newssi_Write(NS);
+    if (h_argi("nosort", 0)) { if (path) { setenv("PATH", path, 1); free(path); } else unsetenv("PATH"); }
     esl_newssi_Close(NS); NS = NULL;
     present = exists(IDX);
     tmp     = exists(IDX ".1") || exists(IDX ".2");
